@@ -464,6 +464,29 @@ func runReadMonitor(c *Ctx, sub string, binary bool) {
 			}
 		})
 	}
+	if !binary {
+		// operators glued to the value behind them: an operator ends at the first character that is not an
+		// operator character, so (+2007T) is the symbol + followed by a timestamp
+		ops := []string{"+", "-+", "*", "<=", "&&+", "."}
+		nexts := []string{"2007-02-23T12:14:33.079-08:00", "2000-01-01T", "2001T", "0x1F", "0b101", "12", "1.5", "2.5e0", "7d-2", "1_000", "abc", "'q s'", "\"str\"", "'''long'''", "{{aGk=}}", "{{\"clob\"}}", "[1, 2]", "(x)", "{a: 1}", "a::3", "null.int", "true", "$4", "nan", "information"}
+		var glued []string
+		for _, op := range ops {
+			for _, nx := range nexts {
+				if !reftext.OperatorGlueOK(op, nx) {
+					continue
+				}
+				glued = append(glued, "("+op+nx+")", "(a "+op+nx+" 1)", "[("+op+nx+" "+op+nx+")]")
+			}
+		}
+		c.Parallel(len(glued), func(w, i int) {
+			k := ReadCase{CaseSeed: int64(i), Literal: glued[i] + " "}
+			c.JournalCase(w, fmt.Sprintf("%s-operator-glue %s", sub, glued[i]))
+			if ran, _ := runReadCase(c, sub+"-operator-glue", k); ran {
+				c.NonTrivial("glue|" + glued[i])
+				c.Obs("operator_glued_documents", 1)
+			}
+		})
+	}
 	// per-kind pass: every kind x typed null x annotated, with heavy spelling variation
 	g := gen.New(c.Seed + 99)
 	var grid []ReadCase
